@@ -321,6 +321,21 @@ def pure_polys(term, var, min_degree=2):
                     if x not in ps and isinstance(x, tuple):
                         rec(x, False)
                 return
+        if h == "mul" and not pure:
+            # the pure factors of a mixed product form one polynomial (e.g. t*(a + b*t)*d2r)
+            ps = [x for x in t[1:] if is_pure(x, {var})]
+            if len([x for x in ps if any(y == ("sym", var) for y in T.walk(x))]) >= 2:
+                g = T.mul(*ps)
+                try:
+                    cs = numeric_poly(alg, g, var)
+                except (AnalysisError, ZeroDivisionError):
+                    cs = None
+                if cs is not None and len(cs) - 1 >= min_degree:
+                    out.append(tuple(cs))
+                    for x in t[1:]:
+                        if x not in ps and isinstance(x, tuple):
+                            rec(x, False)
+                    return
         for x in t[1:]:
             if isinstance(x, tuple):
                 rec(x, pure)
@@ -903,3 +918,139 @@ def signcase_equal(t, m, facts=None, depth=6, stats=None, trail=()):
         if ok is not True:
             return ok, why
     return True, None
+
+
+# ---------------------------------------------------------------------------------------------
+# real-valued simplification of path conditions; splitting of phi-valued outcomes
+# ---------------------------------------------------------------------------------------------
+_COMPL = {"Lt": "GtE", "GtE": "Lt", "Gt": "LtE", "LtE": "Gt", "Eq": "NotEq", "NotEq": "Eq"}
+
+
+def simplify_cond(c):
+    """negation normal form over the reals: not (a < b) is a >= b; a conjunction holding a comparison and its complement
+    is False, a disjunction holding both is True; nested and/or flattened.  (NaN is outside the model.)"""
+    def nnf(t, neg):
+        h = t[0]
+        if h == "not":
+            return nnf(t[1], not neg)
+        if h == "bool":
+            return ("bool", bool(t[1]) != neg)
+        if h == "cmp" and t[1] in _COMPL:
+            return ("cmp", _COMPL[t[1]], t[2], t[3]) if neg else t
+        if h in ("and", "or"):
+            conj = (h == "and") != neg
+            parts = []
+            for x in t[1:]:
+                y = nnf(x, neg)
+                if y[0] == ("and" if conj else "or"):
+                    parts.extend(y[1:])
+                else:
+                    parts.append(y)
+            out = []
+            for y in parts:
+                if y == ("bool", conj):
+                    continue
+                if y == ("bool", not conj):
+                    return ("bool", not conj)
+                if y not in out:
+                    out.append(y)
+            for y in out:
+                if y[0] == "cmp" and y[1] in _COMPL and ("cmp", _COMPL[y[1]], y[2], y[3]) in out:
+                    return ("bool", not conj)
+            if conj:
+                # absorb: a and (a or b) == a ; drop a disjunct list containing a sibling's complement literal
+                keep = []
+                for y in out:
+                    if y[0] == "or":
+                        alts = [z for z in y[1:] if not (z[0] == "cmp" and z[1] in _COMPL and ("cmp", _COMPL[z[1]], z[2], z[3]) in out)
+                                and not (z[0] == "and" and any(w[0] == "cmp" and w[1] in _COMPL and ("cmp", _COMPL[w[1]], w[2], w[3]) in out for w in z[1:]))]
+                        if any(z in out for z in alts):
+                            continue
+                        if not alts:
+                            return ("bool", False)
+                        y = alts[0] if len(alts) == 1 else ("or",) + tuple(alts)
+                        if y[0] == "and":
+                            keep.extend(w for w in y[1:] if w not in keep and w not in out)
+                            continue
+                    keep.append(y)
+                out = keep
+            if not out:
+                return ("bool", conj)
+            if len(out) == 1:
+                return out[0]
+            return (("and",) if conj else ("or",)) + tuple(out)
+        return ("not", t) if neg else t
+    prev = None
+    cur = c
+    for _ in range(4):
+        if cur == prev:
+            break
+        prev, cur = cur, nnf(cur, False)
+    return cur
+
+
+def phi_leaves(t, conds=()):
+    if t[0] == "phi":
+        yield from phi_leaves(t[2], conds + (t[1],))
+        yield from phi_leaves(t[3], conds + (T.lnot(t[1]),))
+    else:
+        yield conds, t
+
+
+def split_phi_outcomes(outs, simplify=True):
+    """one outcome per leaf of a phi-valued return (as produced when a helper with several returns was inlined); path
+    conditions simplified over the reals, infeasible outcomes dropped"""
+    res = []
+    for o in outs:
+        leaves = list(phi_leaves(o.value)) if (o.kind == "ret" and o.value is not None and o.value[0] == "phi") else [((), o.value)]
+        for conds, leaf in leaves:
+            c = T.land(o.cond, *conds)
+            if simplify:
+                c = simplify_cond(c)
+            if c == ("bool", False):
+                continue
+            res.append(symx.Outcome(o.kind, c, leaf, o.env, o.node))
+    return res
+
+
+def prop_unsat(c, max_atoms=14):
+    """True when the condition is propositionally unsatisfiable (comparisons and their complements `a < b` / `a >= b`
+    share one variable; every other atom is its own variable); None when there are too many atoms.  Exhaustive truth table."""
+    import itertools
+    atoms = {}
+
+    def lit(t):
+        if t[0] == "cmp" and t[1] in ("GtE", "LtE", "NotEq"):
+            return ("cmp", _COMPL[t[1]], t[2], t[3]), False
+        return t, True
+
+    def collect(t):
+        h = t[0]
+        if h in ("and", "or"):
+            for x in t[1:]:
+                collect(x)
+        elif h == "not":
+            collect(t[1])
+        elif h != "bool":
+            a, _ = lit(t)
+            atoms.setdefault(a, len(atoms))
+    collect(c)
+    if len(atoms) > max_atoms:
+        return None
+
+    def ev(t, val):
+        h = t[0]
+        if h == "bool":
+            return bool(t[1])
+        if h == "and":
+            return all(ev(x, val) for x in t[1:])
+        if h == "or":
+            return any(ev(x, val) for x in t[1:])
+        if h == "not":
+            return not ev(t[1], val)
+        a, pol = lit(t)
+        return val[atoms[a]] == pol
+    for val in itertools.product((False, True), repeat=len(atoms)):
+        if ev(c, val):
+            return False
+    return True
